@@ -19,6 +19,7 @@ import (
 
 	stunx "github.com/pion/ice/v4/internal/stun"
 	"github.com/pion/ice/v4/internal/taskloop"
+	"github.com/pion/ice/v4/internal/verifhook"
 	"github.com/pion/logging"
 	"github.com/pion/mdns/v2"
 	"github.com/pion/stun/v3"
@@ -715,6 +716,10 @@ func (a *Agent) connectivityChecks() { //nolint:cyclop
 		}); err != nil {
 			a.log.Warnf("Failed to start connectivity checks: %v", err)
 		}
+	}
+
+	if verifhook.TakeTicker(a, contact, a.loop.Done()) {
+		return
 	}
 
 	timer := time.NewTimer(math.MaxInt64)
